@@ -138,8 +138,48 @@ class _Scan:
                                                       self.sections))
         return out
 
+    @staticmethod
+    def _field_paths(e, fields):
+        ap = access_path(e)
+        if ap is not None and ap[0] == 'self':
+            for fap, fpaths in fields.items():
+                if ap[:len(fap)] == fap:
+                    rest = ap[len(fap):]
+                    return [fp + tuple(x.strip("'") if x != '[*]'
+                                       else IP.STAR for x in rest)
+                            for fp in fpaths]
+        return None
+
     def scan_function(self, fi, fields):
         roots, al, shallow = self.func_aliases(fi)
+        # locals bound to an attribute that is itself bound to an input
+        # container (x = self.f[...], x = self.f[...] or [], ...)
+        if fields:
+            al = dict(al)
+            for _ in range(3):
+                grew = False
+                for st in walk_no_nested(fi.node):
+                    if not (isinstance(st, ast.Assign) and
+                            len(st.targets) == 1 and
+                            isinstance(st.targets[0], ast.Name)):
+                        continue
+                    v = st.value
+                    parts = v.values if isinstance(v, ast.BoolOp) else (
+                        [v.body, v.orelse] if isinstance(v, ast.IfExp)
+                        else [v])
+                    got = []
+                    for q in parts:
+                        got += self._field_paths(q, fields) or []
+                        r = IP.resolve(fi.node, q, roots, al)
+                        if r and not isinstance(q, (ast.BoolOp, ast.IfExp)):
+                            got += r
+                    nm = st.targets[0].id
+                    new = sorted(set(al.get(nm, []) + got))
+                    if got and new != al.get(nm):
+                        al[nm] = new
+                        grew = True
+                if not grew:
+                    break
 
         def input_paths(e):
             """Input paths denoted by expression e, (paths, extra_depth_ok)"""
@@ -155,15 +195,9 @@ class _Scan:
                                        {**al, root.id: base})
                     return paths, 1
             # through an attribute bound to an input container
-            ap = access_path(e)
-            if ap is not None and ap[0] == 'self':
-                for fap, fpaths in fields.items():
-                    if ap[:len(fap)] == fap:
-                        rest = ap[len(fap):]
-                        out = [fp + tuple(x.strip("'") if x != '[*]'
-                                          else IP.STAR for x in rest)
-                               for fp in fpaths]
-                        return out, 0
+            out = self._field_paths(e, fields)
+            if out:
+                return out, 0
             return None, 0
 
         for t, st in U.stores(fi.node):
@@ -183,6 +217,18 @@ class _Scan:
                 self.ctx.ok('C16.R1', fi, st, 'store into a shallow copy')
                 continue
             self.report(fi, st, t, cont, 'stores into')
+        # x += [...] on a local that *is* an input list extends it in place
+        for st in walk_no_nested(fi.node):
+            if isinstance(st, ast.AugAssign) and \
+                    isinstance(st.target, ast.Name):
+                self.n += 1
+                cont, extra = input_paths(st.target)
+                if cont and not extra and any(
+                        _is_container(p, self.keys, self.sections) and
+                        IP.match_schema(p, self.keys, self.sections)[0]
+                        == 'key' for p in cont):
+                    self.report(fi, st, st.target, cont,
+                                'extends in place (augmented assignment)')
         for c in walk_no_nested(fi.node):
             if isinstance(c, ast.Call) and isinstance(c.func, ast.Attribute) \
                     and c.func.attr in MUTATORS:
